@@ -53,6 +53,12 @@ def model_script(log, meta, script, upt):
         return None
     for n in sorted(first):
         idof(n)
+    # atoms that only appear in later plans (created by a re-planning) get their ids now, so that callback requests
+    # addressed to them can be registered with the model before the history starts
+    for e in ev:
+        if e[0] == "plan":
+            for n in sorted(e[1]):
+                idof(n)
     for tok in script.split(","):
         f = tok.split(":")
         if f[0] in ("ds", "de") and f[2] in ids:
